@@ -32,6 +32,9 @@ R10.10 count and array of a module container are set together: a function that s
 R10.11 reader primitives at the exact end of input: bufferReadByte/F32/F64/Equal, the LEB128 decoders, wasmReadName and wasmReadBytes
        are evaluated on buffers that hold exactly the bytes needed (must succeed, consuming all) and one byte less (must fail
        or stop without reading outside the buffer)
+R10.12 the debug-name table is indexed only below its own length: every subscript of WasmNames.names is dominated by
+       `index < length of the same table` (directly, through a copied local, or a local the length was stored from); indices kept
+       in a record field are bounded where the field is stored
 R10.5  name bytes: the hex escape of identifier bytes formats an unsigned byte with at most two digits in both twins
 """
 import math
@@ -1322,6 +1325,137 @@ def check_count_array_pairs(chk, funcs):
     return n
 
 
+# ---- R10.12 ---------------------------------------------------------------------------------------
+
+def check_names_subscripts(chk, funcs):
+    """the debug-name table (WasmNames: names[], length) is sized by the name section, not by the function count - its length depends
+    on where the section sits in the file - so every subscript must be bounded by the length of *the same table*: the index is
+    compared (<) with that table's length, a local that was copied from it, or a local that the length was stored from, on every
+    path to the subscript; indices carried in a record field are bounded where the field is stored"""
+    from .. import cfg
+    n_sites = 0
+    for tu, f in funcs:
+        body = astdb.fn_body(f)
+        if body is None:
+            continue
+        subs = []
+        for x in walk(body):
+            if x.get('kind') == 'ArraySubscriptExpr':
+                b0 = strip(kids(x)[0], casts=True)
+                if b0.get('kind') == 'MemberExpr' and b0.get('name') == 'names' and record_of(kids(b0)[0], tu) == 'WasmNames':
+                    subs.append((x, b0))
+        if not subs:
+            continue
+        ps_ = astdb.fn_params(f)
+        if ps_ and record_of(ps_[0], tu) == 'WasmNames' and f['name'] == ps_[0].get('name', '') + 'Append':
+            continue        # the container's own append primitive (ARRAY_TYPE): index == old length after EnsureCapacity(length + 1), see R10.9
+        # aliases of <owner>.length
+        def owner_text(member):
+            return astdb.expr_text(strip(kids(member)[0])).replace(' ', '')
+
+        def defs_of(vid):
+            out = []
+            for x in walk(body):
+                if x.get('kind') == 'VarDecl' and x.get('id') == vid and x.get('init'):
+                    out.append([c for c in kids(x) if c.get('kind')][-1])
+                elif x.get('kind') in ('BinaryOperator', 'CompoundAssignOperator', 'UnaryOperator') and \
+                        x.get('opcode') in ('=', '+=', '-=', '++', '--', '*=', '&'):
+                    l = strip(kids(x)[0])
+                    if l.get('kind') == 'DeclRefExpr' and l['referencedDecl'].get('id') == vid:
+                        out.append(kids(x)[1] if x.get('opcode') == '=' else None)
+            return out
+
+        def length_aliases(owner):
+            al = {owner + '.length', owner + '->length'}
+            for x in walk(body):
+                # local copied from the length
+                if x.get('kind') == 'VarDecl' and x.get('init'):
+                    ini = strip([c for c in kids(x) if c.get('kind')][-1], casts=True)
+                    if ini.get('kind') == 'MemberExpr' and ini.get('name') == 'length' and owner_text(ini) == owner:
+                        ds = defs_of(x['id'])
+                        if len(ds) == 1:
+                            al.add(x['name'])
+                # length stored from an unmodified local
+                if x.get('kind') == 'BinaryOperator' and x.get('opcode') == '=':
+                    l = strip(kids(x)[0])
+                    r = strip(kids(x)[1], casts=True)
+                    if l.get('kind') == 'MemberExpr' and l.get('name') == 'length' and owner_text(l) == owner and r.get('kind') == 'DeclRefExpr' \
+                            and r['referencedDecl'].get('kind') in ('VarDecl', 'ParmVarDecl'):
+                        ds = [d for d in defs_of(r['referencedDecl']['id'])]
+                        if len(ds) <= 1 and None not in ds:
+                            al.add(r['referencedDecl']['name'])
+            return al
+
+        def cond_facts(c, truth):
+            if c.get('kind') != 'BinaryOperator' or c.get('opcode') not in ('<', '>', '<=', '>='):
+                return ()
+            a_, b_ = [astdb.expr_text(strip(x, casts=True)).replace(' ', '') for x in kids(c)]
+            op = c['opcode']
+            if not truth:
+                op = {'<': '>=', '>': '<=', '<=': '>', '>=': '<'}[op]
+            if op == '<':
+                return [('lt', a_, b_)]
+            if op == '>':
+                return [('lt', b_, a_)]
+            return ()
+
+        def kills(nd):
+            tgt = None
+            if nd.get('kind') in ('BinaryOperator', 'CompoundAssignOperator') and (nd.get('opcode') == '=' or nd.get('kind') == 'CompoundAssignOperator'):
+                tgt = astdb.expr_text(strip(kids(nd)[0])).replace(' ', '')
+            elif nd.get('kind') == 'UnaryOperator' and nd.get('opcode') in ('++', '--'):
+                tgt = astdb.expr_text(strip(kids(nd)[0])).replace(' ', '')
+            elif nd.get('kind') == 'CallExpr':
+                outs = [astdb.expr_text(strip(kids(strip(a_, casts=True))[0])).replace(' ', '') for a_ in astdb.call_args(nd)
+                        if strip(a_, casts=True).get('kind') == 'UnaryOperator' and strip(a_, casts=True).get('opcode') == '&']
+                if outs:
+                    return lambda fa: any(re.search(r'(?<![\w.>])%s(?![\w])' % re.escape(o), fa[1]) or re.search(r'(?<![\w.>])%s(?![\w])' % re.escape(o), fa[2]) for o in outs)
+            if tgt is None:
+                return None
+            # a loop increment of the index keeps `index < bound` only through the loop condition: the fact is re-established there
+            return lambda fa: re.search(r'(?<![\w.>])%s(?![\w])' % re.escape(tgt), fa[1]) is not None or \
+                re.search(r'(?<![\w.>])%s(?![\w])' % re.escape(tgt), fa[2]) is not None
+        targets = {id(x): (x, b0) for x, b0 in subs}
+        field_stores = []      # (store node, field name, rhs text)
+        for x in walk(body):
+            if x.get('kind') == 'BinaryOperator' and x.get('opcode') == '=' and strip(kids(x)[0]).get('kind') == 'MemberExpr':
+                field_stores.append(x)
+        fs_ids = {id(x) for x in field_stores}
+        res = cfg.guarded_before(body, lambda nd: id(nd) in targets or id(nd) in fs_ids, cond_facts, kills)
+        facts_at = {i: facts for i, (nd, facts) in res.items()}
+        for x, b0 in subs:
+            n_sites += 1
+            owner = owner_text(b0)
+            al = length_aliases(owner)
+            idx_node = strip(kids(x)[1], casts=True)
+            idx = astdb.expr_text(idx_node).replace(' ', '')
+            facts = facts_at.get(id(x))
+            site = '%s:names[%s]' % (f['name'], idx)
+            if facts is None:
+                chk.ok('R10.12', site, 'unreachable')
+                continue
+            ok = any(fa[0] == 'lt' and fa[1] == idx and fa[2] in al for fa in facts)
+            why = ''
+            if not ok and idx_node.get('kind') == 'MemberExpr':
+                # index carried in a record field: every store to that field in this function stores a bounded value
+                fld = idx_node.get('name')
+                sts = [st for st in field_stores if strip(kids(st)[0]).get('name') == fld]
+                if sts:
+                    ok = True
+                    for st in sts:
+                        rhs = astdb.expr_text(strip(kids(st)[1], casts=True)).replace(' ', '')
+                        ff = facts_at.get(id(st)) or ()
+                        if not any(fa[0] == 'lt' and fa[1] == rhs and fa[2] in al for fa in ff):
+                            ok = False
+                            why = ' (field %s is stored from %s without that bound at %s)' % (fld, rhs, astdb.loc_str(st))
+            chk.expect(ok, 'R10.12', site,
+                       '%s indexes %s.names with %s, which is not bounded by the length of that table on every path%s (established: %r): the table '
+                       'is sized when the name section is read and may be shorter than the function count'
+                       % (f['name'], owner, idx, why, sorted(fa for fa in facts if fa[0] == 'lt')[:6]),
+                       '%s:names-index' % f['name'], astdb.loc_str(x))
+    return n_sites
+
+
 # ---- R10.11 ---------------------------------------------------------------------------------------
 
 def check_exact_end(chk, rule='R10.11'):
@@ -1473,6 +1607,8 @@ def run(chk):
     n_nm = check_name_dedup(chk, chk.tier)
     n_gr = check_growable(chk)
     n_ca = check_count_array_pairs(chk, funcs)
+    n_ns = check_names_subscripts(chk, funcs)
+    chk.require(n_ns >= 5, 'only %d subscripts of a WasmNames table found (expected >= 5): anchor drifted' % n_ns)
     n_ee = check_exact_end(chk)
     chk.extra['sites'] = dict(sprintf=n_fmt, copies=n_cp, raw_buffer=n_buf, nullable_sinks=n_null,
                               tainted_locations=sorted(map(str, nf.tainted)), seed_evidence={str(k): v[:3] for k, v in just.items()})
